@@ -83,6 +83,9 @@ func main() {
 	case "--worker":
 		silence()
 		workerMain(os.Args[2], os.Args[3], os.Args[4])
+		fieldcovFlush()
+	case "--fieldcov-universe":
+		fmt.Println(strings.Join(fieldcovUniverse(), "\n"))
 	case "--replay":
 		silence()
 		os.Exit(replayMain(os.Args[2]))
